@@ -24,6 +24,8 @@ fn main() {
         }
         Some("case") if args.len() >= 6 => sandbox::case_main(&args[2], core::Tier::parse(&args[3]), &args[4], &args[5]),
         Some("aux") if args.len() >= 3 => sandbox::aux_main(&args[2], &args[3..]),
+        // stand-alone GDSII reader, run under cachegrind by C10's linear-time part
+        Some("gdsread") if args.len() >= 3 => props::c10::gdsread_main(&args[2]),
         Some("list") => {
             for id in props::ALL {
                 println!("{id}");
